@@ -12,7 +12,7 @@ NAMES = ["OP_DUP", "DUP", "OP_ADD", "ADD", "OP_1", "OP_0", "0", "OP_IF", "OP_ELS
          "OP_VER", "OP_CHECKSIG", "OP_CHECKSIGVERIFY", "OP_CHECKMULTISIG", "OP_CHECKMULTISIGVERIFY", "OP_CHECKSIGADD", "OP_TRUE", "OP_FALSE", "OP_x61", "x76", "OP_xff", "xff", "OP_xFF", "OP_xfe", "OP_xba", "OP_xf", "OP_1NEGATE", "-1", "OP_16"]
 INTS = ["1", "2", "5", "16", "17", "-1", "-5", "127", "128", "255", "256", "-128", "1000", "65535", "2147483647", "-2147483647",
         "2147483648", "99999999999", "007", "-0", "+5", "1e3"]
-HEXES = ["00", "01", "81", "ff", "0100", "ff00", "0102030405", "80", "0000", "deadbeef", "zz", "0x05", "abc", "ABCD", "1234", "10",
+HEXES = ["00", "01", "81", "ff", "0100", "ff00", "0102030405", "80", "0000", "deadbeef", "zz", "0x05", "0x0102", "0x", "0xzz", "0x1", "abc", "ABCD", "1234", "10",
          "ffffffff7f", "00000080", "0000008000"]
 
 
